@@ -7,12 +7,10 @@ pub mod tags {
     pub struct Set(pub &'static [&'static str]);
     impl Set {
         pub fn contains(&self, name: &str) -> bool {
-            let mut i = 0;
-            while i < self.0.len() {
-                if self.0[i] == name { return true; }
-                i += 1;
-            }
-            false
+            // unrolled (tables have <= 8 entries): no loop for CBMC to unwind
+            let t = self.0;
+            (t.len() > 0 && t[0] == name) || (t.len() > 1 && t[1] == name) || (t.len() > 2 && t[2] == name) || (t.len() > 3 && t[3] == name)
+                || (t.len() > 4 && t[4] == name) || (t.len() > 5 && t[5] == name) || (t.len() > 6 && t[6] == name) || (t.len() > 7 && t[7] == name)
         }
     }
     pub static STANDARD_HTML_TAGS: Set = Set(&["a", "div", "input", "p", "select", "span", "textarea"]);
